@@ -263,10 +263,33 @@ mod srd { pub fn run(_a: &[&str]) -> String { "UNSUPPORTED".into() } }
 fn hash_of<T: std::hash::Hash>(x: &T) -> u64 { use std::hash::Hasher; let mut h = std::collections::hash_map::DefaultHasher::new(); x.hash(&mut h); h.finish() }
 fn sg(s: &str) -> Sign { match s { "-" => Sign::Minus, "0" => Sign::NoSign, _ => Sign::Plus } }
 
+/// powf <u|i> <exponent type> <vv|vr|rv|rr> <base> <exponent>: every Pow form (base by value / reference, exponent by value / reference)
+fn powf(a: &[&str]) -> String {
+    macro_rules! forms { ($b:expr, $e:expr, $f:ident) => { match a[3] {
+        "vv" => $f(&Pow::pow($b, $e)), "vr" => $f(&Pow::pow($b, &$e)), "rv" => $f(&Pow::pow(&$b, $e)), _ => $f(&Pow::pow(&$b, &$e)) } } }
+    macro_rules! tys { ($b:expr, $f:ident) => { match a[2] {
+        "u8" => forms!($b, pu64(a[5]) as u8, $f), "u16" => forms!($b, pu64(a[5]) as u16, $f), "u32" => forms!($b, pu64(a[5]) as u32, $f),
+        "u64" => forms!($b, pu64(a[5]), $f), "usize" => forms!($b, pu64(a[5]) as usize, $f),
+        "u128" => forms!($b, u128::from_str_radix(a[5], 16).unwrap(), $f), _ => forms!($b, pu(a[5]), $f) } } }
+    if a[1] == "u" { tys!(pu(a[4]), fu) } else { tys!(pi(a[4]), fi) }
+}
+
 fn run(a: &[&str]) -> String {
     let op = a[0];
     if op == "sc" { return sc(a); }
     if op == "cv" { return cv(a); }
+    if op == "powf" { return powf(a); }
+    if op == "shlf" {
+        // shlf <u|+|-> <64|32> <k hex>: (1 << k).to_f64() / to_f32() for shifts too large to pass as text
+        let k = pu64(a[3]) as usize;
+        let x = BigUint::from(1u32) << k;
+        return match (a[1], a[2]) {
+            ("u", "64") => format!("{:016x}", x.to_f64().unwrap().to_bits()),
+            ("u", _) => format!("{:08x}", x.to_f32().unwrap().to_bits()),
+            (s_, "64") => format!("{:016x}", BigInt::from_biguint(sg(s_), x).to_f64().unwrap().to_bits()),
+            (s_, _) => format!("{:08x}", BigInt::from_biguint(sg(s_), x).to_f32().unwrap().to_bits()),
+        };
+    }
     if op == "fr" { return fr(a); }
     if op.starts_with("sser_") || op.starts_with("sde_") || op.starts_with("sround_") || op.starts_with("srec_") { return srd::run(a); }
     if op.starts_with('r') && (op.starts_with("rgen_") || op.starts_with("rbits_") || op.starts_with("runiform_") || op.starts_with("rsingle_")) { return rnd::run(a); }
